@@ -287,8 +287,10 @@ pub fn random_req(wd: &mut World) -> Req {
     // under a policy whose two depths are far apart (the shielded note is deep enough by itself within
     // a block or two, its coins are not for several more)
     let (kind, account, pol, lock_req, pools) = match wd.followup {
-        Some((a, _, src)) => (
-            Kind::SendMax,
+        Some((a, left, src)) => (
+            // alternately everything the account has (the all-funds query) and a payment sized against
+            // the model (the value-targeted query)
+            if left % 2 == 0 { Kind::SendMax } else { Kind::Transfer },
             a,
             // the untrusted depth is chosen a few blocks beyond what the newest shielded coin has now
             ConfPol {
